@@ -260,6 +260,29 @@ def build(ctx):
 
     ground_spellings(ctx)
     engine_guard(ctx, I, f_num, f_str, f_lab)
+    # F + run-time: look-ups are not memoised (each returns its own object built from the table: what a caller does to one result cannot show up in a later look-up)
+    import ast as _ast
+    decorated = {}
+    for cname in ("Element", "_ElementMeta"):
+        cls_node = mod.classes.get(cname)
+        for n_ in (cls_node.body if cls_node is not None else []):
+            if isinstance(n_, _ast.FunctionDef):
+                ds = [_ast.unparse(d_) for d_ in n_.decorator_list]
+                if any("cache" in d_ for d_ in ds):
+                    decorated[f"{cname}.{n_.name}"] = ds
+    indep = []
+    for key in ("C1", "Cl", "carbon", 6, "H12A"):
+        a_ = el.Element[key]
+        saved = (a_.vdw, a_.cov, a_.mass, a_.name)
+        a_.vdw, a_.cov, a_.mass, a_.name = 99.0, 98.0, 97.0, "changed"
+        b_ = el.Element[key]
+        if b_ is a_ or (b_.vdw, b_.cov, b_.mass, b_.name) != saved:
+            indep.append({"key": key, "second_lookup": [b_.vdw, b_.cov, b_.mass, b_.name], "table": list(saved)})
+        a_.vdw, a_.cov, a_.mass, a_.name = saved
+    ctx.ground("element.Element/lookups/independent_results", not decorated and not indep, tag="G",
+               clause="no look-up is memoised by a caching decorator, and modifying the object returned by one look-up does not change what the next look-up of the same key returns",
+               detail={"cached_methods": decorated, "shared_results": indep}, witness={"cached_methods": decorated, "history": "x = Element[k]; x.vdw = 99; Element[k].vdw", "observed": indep[:2]},
+               fn=f_lab)
     bounded_formula(ctx)
 
 
